@@ -231,6 +231,10 @@ func (ra *RouteAuthenticator) Authenticate(req *http.Request, route *MatchedRout
 				return true, nil, err
 			}
 			lastResult = princ
+		} else {
+			// a required scheme without a registered authenticator can never be satisfied:
+			// the whole (AND) requirement does not apply
+			return false, nil, nil
 		}
 	}
 	route.Authenticator = ra
